@@ -57,13 +57,19 @@ RefusalReason == (stage = "thomas" /\ th.pc = "refused") =>
                     /\ (th.why = "zero on leading diagonal" <=> T.main[1] = 0)
 OperatorAgrees == Finished => Thomas(T, r0) = th
 \* determinant and minors: recurrence = Leibniz = fraction-free; SomePivotZero is the predicate the trace spec uses
+OtherT(X) == MkT(X.n, LAMBDA i, j : 3 + 2 * i - 5 * j)
 DetOK == stage = "start" =>
     LET D == TDense(T) IN
     /\ TDet(T) = DetL(D) /\ DetFF(D) = TDet(T)
     /\ \A k \in 1..T.n : Minors(T)[k + 1] = DetL(Leading(D, k))
     /\ SomePivotZero(T) <=> LeibnizPivotZero
+    \* the Gaussian-integer recurrence: on T + i0 it is the real one; on T + i Y it is the fraction-free complex determinant
+    /\ LET Z == TNew(T.n)
+           Y == OtherT(T)
+       IN /\ \A k \in 0..T.n : CMinors(T, Z)[k + 1] = <<Minors(T)[k + 1], 0>>
+          /\ (CSomePivotZero(T, Z) <=> SomePivotZero(T))
+          /\ CTDet(T, Y) = CDetFF(D, TDense(Y)) /\ CTDet(Y, T) = CDetFF(TDense(Y), D)
 \* every operation against the dense twin
-OtherT(X) == MkT(X.n, LAMBDA i, j : 3 + 2 * i - 5 * j)
 Laws == stage = "start" =>
     LET D == TDense(T)
         Y == OtherT(T)
